@@ -39,6 +39,7 @@ import (
 type c10oWriteBack struct {
 	script   []bool // outcome of each SyncExec, in order
 	found    int    // tasks Find returns
+	findErr  bool   // Find fails
 	executed int
 }
 
@@ -53,6 +54,9 @@ func (w *c10oWriteBack) SyncExec(persistedretry.Task) error {
 }
 func (w *c10oWriteBack) Close() {}
 func (w *c10oWriteBack) Find(query interface{}) ([]persistedretry.Task, error) {
+	if w.findErr {
+		return nil, errors.New("verif: scripted Find failure")
+	}
 	var ts []persistedretry.Task
 	for i := 0; i < w.found; i++ {
 		ts = append(ts, writeback.NewTask(c01oNS, fmt.Sprintf("task%d", i), 0))
@@ -61,9 +65,17 @@ func (w *c10oWriteBack) Find(query interface{}) ([]persistedretry.Task, error) {
 }
 
 func c10oOne(t *verifh.T, toks []string) {
-	expired := c01oKV(toks, "expired") == "1"
 	owns := c01oKV(toks, "owns") == "1"
 	persist := c01oKV(toks, "persist")
+	findErr := c01oKV(toks, "finderr") == "1"
+	// age = (now - ModTime) - ttl in ns; old replays carry expired=0|1
+	age, aerr := strconv.ParseInt(c01oKV(toks, "age"), 10, 64)
+	if aerr != nil {
+		age = -int64(time.Hour)
+		if c01oKV(toks, "expired") == "1" {
+			age = int64(2 * time.Hour)
+		}
+	}
 	var script []bool
 	for _, x := range verifh.Unlist(c01oKV(toks, "tasks")) {
 		script = append(script, x == "1")
@@ -94,7 +106,11 @@ func c10oOne(t *verifh.T, toks []string) {
 			panic(err)
 		}
 	}
-	wb := &c10oWriteBack{script: script, found: len(script)}
+	fi, err := cas.GetCacheFileStat(name)
+	if err != nil {
+		panic(err)
+	}
+	wb := &c10oWriteBack{script: script, found: len(script), findErr: findErr}
 	bm := backend.ManagerFixture()
 	mg := metainfogen.Fixture(cas, 4)
 	br := blobrefresh.New(blobrefresh.Config{}, tally.NoopScope, cas, bm, mg)
@@ -103,11 +119,18 @@ func c10oOne(t *verifh.T, toks []string) {
 		ringHost = "some-other-origin:80"
 	}
 	ring := hashring.New(hashring.Config{MaxReplica: 1}, hostlist.Fixture(ringHost), healthcheck.IdentityFilter{}, tally.NoopScope)
+	// the server's clock: exactly `age` past the blob's expiry for ttl = 1 h
 	clk := clock.NewMock()
-	if expired {
-		clk.Set(time.Now().Add(3 * time.Hour))
-	} else {
-		clk.Set(time.Now().Add(-time.Minute))
+	clk.Set(fi.ModTime().Add(time.Hour + time.Duration(age)))
+	// a second blob that is fresh (created "now" on that clock) — and, when this origin owns blobs, no candidate
+	other := []byte("fresh blob " + strings.Join(toks, " "))
+	otherName := c01oSha(other)
+	if owns {
+		if err := cas.CreateCacheFile(otherName, bytes.NewReader(other)); err != nil {
+			panic(err)
+		}
+		// on-disk layout of the CAS cache: <dir>/<2 hex>/<2 hex>/<name>/data
+		os.Chtimes(ca+"/"+otherName[0:2]+"/"+otherName[2:4]+"/"+otherName+"/data", clk.Now(), clk.Now())
 	}
 	srv, err := blobserver.New(blobserver.Config{}, tally.NoopScope, clk, c01oHost, ring, cas, c01oClients{}, c01oClusters{},
 		core.PeerContextFixture(), bm, br, mg, wb)
@@ -122,17 +145,29 @@ func c10oOne(t *verifh.T, toks []string) {
 		Errors  []string `json:"errors"`
 	}
 	if w.Code == 200 && json.Unmarshal(w.Body.Bytes(), &resp) == nil {
+		del := false
+		for _, d := range resp.Deleted {
+			if d == name {
+				del = true
+			}
+		}
 		switch {
 		case len(resp.Errors) > 0:
 			result = "error"
-		case len(resp.Deleted) == 1 && resp.Deleted[0] == name:
+		case del:
 			result = "deleted"
-		case len(resp.Deleted) == 0:
+		default:
 			result = "kept"
 		}
 	}
 	_, serr := cas.GetCacheFileStat(name)
-	t.One(append([]string{"maybedelete"}, toks...), result, "executed="+strconv.Itoa(wb.executed), "present="+verifh.Bool(serr == nil))
+	otherPresent := true
+	if owns {
+		_, oerr := cas.GetCacheFileStat(otherName)
+		otherPresent = oerr == nil
+	}
+	t.One(append([]string{"maybedelete"}, toks...), result, "executed="+strconv.Itoa(wb.executed), "present="+verifh.Bool(serr == nil),
+		"other="+verifh.Bool(otherPresent))
 }
 
 func TestVerif_C10Force(t *testing.T) {
@@ -166,11 +201,18 @@ func TestVerif_C10Force(t *testing.T) {
 		}
 	}
 	gen(nil, verifh.Scale(3, 4))
-	for _, e := range []string{"0", "1"} {
+	// ages around the expiry boundary (strict >): ttl - 1 s, ttl exactly, ttl + 1 ns, ttl + 1 s, far on both sides
+	for _, e := range []string{"-1000000000", "0", "1", "1000000000", "-3600000000000", "7200000000000"} {
 		for _, o := range []string{"0", "1"} {
 			for _, p := range []string{"-", "0", "1"} {
-				for _, l := range lists {
-					toks := []string{"expired=" + e, "owns=" + o, "persist=" + p, "tasks=" + verifh.List(l)}
+				for li, l := range lists {
+					if !verifh.Thorough() && e != "1" && e != "0" && li%3 != 0 {
+						continue
+					}
+					toks := []string{"age=" + e, "owns=" + o, "persist=" + p, "tasks=" + verifh.List(l)}
+					if li%5 == 4 {
+						toks = append(toks, "finderr=1")
+					}
 					if pp := verifh.Protect(func() { c10oOne(tr, toks) }); pp != "" {
 						tr.PropFail("panic", verifh.Str(pp))
 					}
